@@ -24,14 +24,14 @@ import (
 // is a rendezvous the harness performs.
 
 type SubAction struct {
-	Kind string `json:"kind"` // emit | read | cancel | closeSource
+	Kind string `json:"kind"` // emit | read | cancel | closeSource | release
 	// emit: what the payload makes field resolution do
-	Payload string `json:"payload,omitempty"` // ok | fieldError | nonNullFailure | nilEvent (the source sends nil)
+	Payload string `json:"payload,omitempty"` // ok | fieldError | nonNullFailure | nilEvent (the source sends nil) | gated (the resolver blocks until released)
 }
 
 type SubCase struct {
 	Query   int         `json:"query"`
-	Source  string      `json:"source"` // chan | value | nil | error | panic_err | panic_str
+	Source  string      `json:"source"`  // chan | value | nil | error | panic_err | panic_str
 	Request string      `json:"request"` // valid | syntax | validation
 	Actions []SubAction `json:"actions"`
 	// ReadAfterCancel: whether the consumer keeps reading once the context is cancelled
@@ -49,6 +49,7 @@ var c15Queries = []string{
 	`subscription { obj { id nn } }`,
 	`subscription S($s: Boolean = false) { obj { id maybe @skip(if: $s) nn } }`,
 	`subscription { k: obj { id } }`,
+	`subscription { strict }`, // a non-null root field: a failing event leaves no data at all
 }
 
 func c15Model() *model.Schema {
@@ -57,12 +58,19 @@ func c15Model() *model.Schema {
 	return &model.Schema{Query: "Q", Subscription: "S", Types: []*model.TypeDef{
 		{Kind: model.KObject, Name: "EvObj", Fields: []*model.FieldDef{f("id", "Int"), f("nn", "String!"), f("maybe", "String")}},
 		{Kind: model.KObject, Name: "Q", Fields: []*model.FieldDef{f("a", "String")}},
-		{Kind: model.KObject, Name: "S", Fields: []*model.FieldDef{f("tick", "Int"), f("obj", "EvObj")}},
+		{Kind: model.KObject, Name: "S", Fields: []*model.FieldDef{f("tick", "Int"), f("obj", "EvObj"), f("strict", "Int!")}},
 	}}
 }
 
 // expectedFor computes the response the subscription's selection gives for one event.
 func expectedFor(query int, ev *subEvent) (data string, nErrors int) {
+	if query == 5 {
+		// strict: Int! fails for every payload but ok / gated, and the null reaches data
+		if ev.Payload == "ok" || ev.Payload == "gated" {
+			return fmt.Sprintf(`{"strict":%d}`, ev.ID), 0
+		}
+		return "null", 1
+	}
 	if ev.Payload == "nilEvent" {
 		// the source delivered a nil payload: every root field resolves to null
 		switch query {
@@ -131,7 +139,8 @@ func subGoroutines() int {
 	n := runtime.Stack(buf, true)
 	cnt := 0
 	for _, g := range strings.Split(string(buf[:n]), "\n\n") {
-		if strings.Contains(g, "graphql.ExecuteSubscription") {
+		// any goroutine running library code (the event loop, per-event executions it started)
+		if strings.Contains(g, "github.com/graphql-go/graphql.") && !strings.Contains(g, "verif/props.c15Oracle(") && !strings.Contains(g, "props.subGoroutines") {
 			cnt++
 		}
 	}
@@ -141,6 +150,15 @@ func subGoroutines() int {
 func c15Oracle(c *SubCase) (msg string, nontrivial bool) {
 	m := c15Model()
 	source := make(chan interface{})
+	gate := make(chan struct{}) // resolvers of "gated" events wait for it
+	released := false
+	release := func() {
+		if !released {
+			released = true
+			close(gate)
+		}
+	}
+	defer release()
 	ev := func(p graphql.ResolveParams) *subEvent {
 		e, _ := p.Source.(*subEvent)
 		return e
@@ -166,18 +184,39 @@ func c15Oracle(c *SubCase) (msg string, nontrivial bool) {
 		Resolve: map[string]graphql.FieldResolveFn{
 			"S.tick": func(p graphql.ResolveParams) (interface{}, error) {
 				if e := ev(p); e != nil {
+					if e.Payload == "gated" {
+						<-gate
+					}
 					return e.ID, nil
 				}
 				return nil, nil
 			},
+			"S.strict": func(p graphql.ResolveParams) (interface{}, error) {
+				e := ev(p)
+				if e == nil {
+					return nil, nil
+				}
+				switch e.Payload {
+				case "gated":
+					<-gate
+				case "fieldError":
+					return nil, fmt.Errorf("E:strict%d", e.ID)
+				case "nonNullFailure":
+					return nil, nil
+				}
+				return e.ID, nil
+			},
 			"S.obj": func(p graphql.ResolveParams) (interface{}, error) {
-			if e := ev(p); e != nil {
-				return e, nil
-			}
-			return nil, nil // a nil source event: whatever root value the library substitutes, obj is null
-		},
+				if e := ev(p); e != nil {
+					return e, nil
+				}
+				return nil, nil // a nil source event: whatever root value the library substitutes, obj is null
+			},
 			"EvObj.id": func(p graphql.ResolveParams) (interface{}, error) {
 				if e := ev(p); e != nil {
+					if e.Payload == "gated" {
+						<-gate
+					}
 					return e.ID, nil
 				}
 				return nil, nil
@@ -236,6 +275,7 @@ func c15Oracle(c *SubCase) (msg string, nontrivial bool) {
 		}
 	}
 	census := func() string {
+		release() // whatever is still computing a result may finish now
 		deadline := time.Now().Add(5 * time.Second)
 		for subGoroutines() > baseline {
 			if time.Now().After(deadline) {
@@ -321,9 +361,14 @@ func c15Oracle(c *SubCase) (msg string, nontrivial bool) {
 			case <-time.After(10 * time.Second):
 				return fmt.Sprintf("action %d: the subscription did not take a source event within 10 s although it has nothing else to do", i), nontrivial
 			}
+		case "release":
+			release()
 		case "read":
 			if len(pending) == 0 || cancelled {
 				continue
+			}
+			if pending[0].Payload == "gated" {
+				release() // a consumer that waits gets the result once the resolver is let go
 			}
 			r, ok, to := read(10 * time.Second)
 			if to {
@@ -355,6 +400,7 @@ func c15Oracle(c *SubCase) (msg string, nontrivial bool) {
 	// wind down: close the source or cancel, then the channel must close
 	if !closed && !cancelled {
 		if len(pending) > 0 {
+			release()
 			r, ok, to := read(10 * time.Second)
 			if to || !ok {
 				return "outstanding result was never delivered", nontrivial
@@ -372,6 +418,9 @@ func c15Oracle(c *SubCase) (msg string, nontrivial bool) {
 			return "after cancellation (consumer no longer reading, " + fmt.Sprint(len(pending)) + " result(s) pending): " + m, nontrivial
 		}
 		return "", nontrivial
+	}
+	if !cancelled {
+		release()
 	}
 	for {
 		r, ok, to := read(10 * time.Second)
@@ -412,11 +461,11 @@ func TestC15(t *testing.T) {
 		case r < 30:
 			c.Source = []string{"value", "nil", "error", "panic_err", "panic_str"}[gen.Uniform(rt, 5, "source")]
 		}
-		kinds := []string{"emit", "emit", "emit", "read", "read", "read", "cancel", "closeSource"}
+		kinds := []string{"emit", "emit", "emit", "read", "read", "read", "cancel", "closeSource", "release"}
 		for i, n := 0, gen.Intn(rt, 0, 10, "nActions"); i < n; i++ {
 			a := SubAction{Kind: kinds[gen.Uniform(rt, len(kinds), "kind")]}
 			if a.Kind == "emit" {
-				a.Payload = []string{"ok", "ok", "ok", "fieldError", "fieldError", "nonNullFailure", "nonNullFailure", "nilEvent"}[gen.Uniform(rt, 8, "payload")]
+				a.Payload = []string{"ok", "ok", "gated", "fieldError", "fieldError", "nonNullFailure", "gated", "nilEvent"}[gen.Uniform(rt, 8, "payload")]
 			}
 			c.Actions = append(c.Actions, a)
 		}
